@@ -1,11 +1,291 @@
 import StorageModel.Driver.Common
+import StorageModel.Cursor.Kinds
+import StorageModel.Cursor.Stacked
 /- model driver for C14: `run spec` reads case lines on stdin and prints one output line per case
-   (spec = false: the engine model's output; spec = true: the spec's verdict). -/
-namespace StorageModel.Driver.C14
-open StorageModel.Driver
+   (spec = false: the engine model's output; spec = true: the spec's verdict).
 
-def step (_line : String) : String := "not-implemented"
-def specStep (_line : String) : String := "not-implemented"
+   case line:   <desc> <ops>
+     desc  prefix notation, tokens separated by ';' (the `via` token names the library call the
+           harness uses and is ignored here):
+             fwd;via;SET   rev;via;SET   tfwd;via;TAG;SET   trev;via;TAG;SET   setsym;SET   setsymnone
+             empty;via   slice;f|r;LIST   tree;f|r;0|1;LIST   filt;DESC;SET   union;f|r;DESC;DESC
+             scan;DESC;SKIP;KEEP   valid;DESC;PRESENT
+             allof;f|r;TABLE;VALUES   anyof;f|r;TABLE;VALUES     (IteratorMatchingAllOf / AnyOf)
+     TABLE rows `idhex=rolehex.rolehex…` separated by '+', '_' = no row, `id=_` = no role
+     SET   elements (hex, '-' = empty string) separated by ',', '_' = no element
+     ops   n | s<hex> (Seek) | t<hex> (SeekToString), separated by ',', '_' = none
+   output: the observation after opening and after every operation:
+             i (invalid)  v<hex> / vnil (valid, Current())  u (no such method)  panic  fail
+
+   composite set symbol (stackedCursor):   stacked;PATH;ROOT;THINGS;OTHERS <ops>
+     PATH   others.tags | others.name | boss.tags | others.things.tags
+     THINGS rows `id=tags/others/boss` ('+'-separated; lists '.'-separated, '_' empty; boss '~' = nil)
+     OTHERS rows `id=tags/name` (name '~' = nil)
+
+   exhaustive block:   X <desc> <k> <op,op,…>
+     every script of length ≤ k over the given operations is run; output `<count> <h> <hn>` where
+     h is the sum (mod 2^64) of the FNV-1a hashes of the scripts' output lines and hn the same with
+     `vnil` read as `v-` (the check expands a block whose digests differ into its scripts). -/
+namespace StorageModel.Driver.C14
+open StorageModel StorageModel.Driver StorageModel.Cursor
+
+def parseSet (s : String) : Option (List Bytes) :=
+  if s = "_" then some [] else (s.splitOn ",").mapM Bytes.ofHex
+
+def parseDir (s : String) : Option Dir :=
+  if s = "f" then some .fwd else if s = "r" then some .rev else none
+
+def parseTag (s : String) : Option UInt8 :=
+  match Bytes.ofHex s with
+  | some [t] => some t
+  | _ => none
+
+def parseRow (s : String) : Option (Bytes × List Bytes) :=
+  match s.splitOn "=" with
+  | [i, rs] => do
+    let id ← Bytes.ofHex i
+    let roles ← if rs = "_" then some [] else (rs.splitOn ".").mapM Bytes.ofHex
+    pure (id, roles)
+  | _ => none
+
+def parseTable (s : String) : Option Desc.Table :=
+  if s = "_" then some [] else (s.splitOn "+").mapM parseRow
+
+partial def parseDesc : List String → Option (Desc × List String)
+  | "fwd" :: _ :: s :: rest => do pure (.fwd (← parseSet s), rest)
+  | "rev" :: _ :: s :: rest => do pure (.rev (← parseSet s), rest)
+  | "tfwd" :: _ :: t :: s :: rest => do pure (.tfwd (← parseTag t) (← parseSet s), rest)
+  | "trev" :: _ :: t :: s :: rest => do pure (.trev (← parseTag t) (← parseSet s), rest)
+  | "setsym" :: s :: rest => do pure (.setsym (← parseSet s), rest)
+  | "setsymnone" :: rest => some (.setsymNone, rest)
+  | "empty" :: _ :: rest => some (.empty, rest)
+  | "slice" :: d :: s :: rest => do pure (.slice (← parseDir d) (← parseSet s), rest)
+  | "tree" :: d :: ne :: s :: rest => do pure (.tree (← parseDir d) (ne == "1") (← parseSet s), rest)
+  | "filt" :: rest => do
+    let (i, rest) ← parseDesc rest
+    match rest with
+    | s :: rest => pure (.filt i (← parseSet s), rest)
+    | _ => none
+  | "union" :: d :: rest => do
+    let (a, rest) ← parseDesc rest
+    let (b, rest) ← parseDesc rest
+    pure (.union (← parseDir d) a b, rest)
+  | "scan" :: rest => do
+    let (i, rest) ← parseDesc rest
+    match rest with
+    | sk :: kp :: rest => pure (.scan i (← parseSet sk) (← parseSet kp), rest)
+    | _ => none
+  | "valid" :: rest => do
+    let (i, rest) ← parseDesc rest
+    match rest with
+    | s :: rest => pure (.validIds i (← parseSet s), rest)
+    | _ => none
+  | "allof" :: d :: t :: vs :: rest => do pure (Desc.allOf (← parseDir d) (← parseTable t) (← parseSet vs), rest)
+  | "anyof" :: d :: t :: vs :: rest => do pure (Desc.anyOf (← parseDir d) (← parseTable t) (← parseSet vs), rest)
+  | _ => none
+
+/-- the specification of an AllOf / AnyOf iterator, directly from the table (not through the
+    desugared description): the ids holding all / any of the values, in key order; no value at
+    all selects nothing -/
+def tableSpec : List String → Option Spec
+  | ["allof", d, t, vs] => do
+    let values ← parseSet vs
+    let tb ← parseTable t
+    let dir ← parseDir d
+    pure (Spec.plain (if values.isEmpty then [] else order dir (dedupSort (Desc.hasAll tb values))))
+  | ["anyof", d, t, vs] => do
+    let values ← parseSet vs
+    let tb ← parseTable t
+    let dir ← parseDir d
+    pure (Spec.plain (if values.isEmpty then [] else order dir (dedupSort (Desc.hasAny tb values))))
+  | _ => none
+
+def parseOp (s : String) : Option Op :=
+  if s = "n" then some .next
+  else if s.startsWith "s" then (Bytes.ofHex (s.drop 1).toString).map Op.seek
+  else if s.startsWith "t" then (Bytes.ofHex (s.drop 1).toString).map Op.seekS
+  else none
+
+def parseOps (s : String) : Option (List Op) :=
+  if s = "_" then some [] else (s.splitOn ",").mapM parseOp
+
+def showObs : Obs → String
+  | .invalid => "i"
+  | .value none => "vnil"
+  | .value (some b) => "v" ++ Bytes.toWire b
+  | .unsupported => "u"
+  | .failed _ => "fail"
+  | .panic => "panic"
+
+def showRun (l : List Obs) : String := " ".intercalate (l.map showObs)
+
+/-! the world of a stacked-cursor case -/
+
+structure ThingRow where
+  id : Bytes
+  tags : List Bytes
+  others : List Bytes
+  boss : Option Bytes
+
+structure OtherRow where
+  id : Bytes
+  tags : List Bytes
+  name : Option Bytes
+
+def parseList (s : String) : Option (List Bytes) :=
+  if s = "_" then some [] else (s.splitOn ".").mapM Bytes.ofHex
+
+def parseOpt (s : String) : Option (Option Bytes) :=
+  if s = "~" then some none else (Bytes.ofHex s).map some
+
+def parseThing (s : String) : Option ThingRow :=
+  match s.splitOn "=" with
+  | [i, r] => match r.splitOn "/" with
+    | [t, o, b] => do pure { id := ← Bytes.ofHex i, tags := ← parseList t, others := ← parseList o, boss := ← parseOpt b }
+    | _ => none
+  | _ => none
+
+def parseOther (s : String) : Option OtherRow :=
+  match s.splitOn "=" with
+  | [i, r] => match r.splitOn "/" with
+    | [t, n] => do pure { id := ← Bytes.ofHex i, tags := ← parseList t, name := ← parseOpt n }
+    | _ => none
+  | _ => none
+
+def parseRows {α} (f : String → Option α) (s : String) : Option (List α) :=
+  if s = "_" then some [] else (s.splitOn "+").mapM f
+
+/-- fkSetQueryPath over the list bucket `field` of the row's entity -/
+def setLevel (rows : List (Bytes × List Bytes)) : Level := fun row =>
+  match row with
+  | none => []
+  | some r => match List.lookup r rows with
+    | some xs => tagged typeString (dedupSort xs)
+    | none => []
+
+/-- fkQueryPath over a scalar string field: exactly one key, `[TypeNil]` for a nil / missing value -/
+def scalarLevel (rows : List (Bytes × Option Bytes)) : Level := fun row =>
+  match row.bind (fun r => List.lookup r rows) with
+  | some (some v) => [prependFieldType typeString v]
+  | _ => [[7]]
+
+def stackedChain (path : String) (things : List ThingRow) (others : List OtherRow) : Option (List Level) :=
+  let tOthers := setLevel (things.map fun t => (t.id, t.others))
+  let tTags := setLevel (things.map fun t => (t.id, t.tags))
+  let tBoss := scalarLevel (things.map fun t => (t.id, t.boss))
+  let oTags := setLevel (others.map fun o => (o.id, o.tags))
+  let oName := scalarLevel (others.map fun o => (o.id, o.name))
+  let oThings := setLevel (others.map fun o => (o.id, (things.filter fun t => t.others.contains o.id).map (·.id)))
+  match path with
+  | "others.tags" => some [tOthers, oTags]
+  | "others.name" => some [tOthers, oName]
+  | "boss.tags" => some [tBoss, tTags]
+  | "others.things.tags" => some [tOthers, oThings, tTags]
+  | _ => none
+
+def stackedStep (spec : Bool) (toks : List String) (o : String) : String :=
+  match toks with
+  | [path, root, th, ot] =>
+    match Bytes.ofHex root, parseRows parseThing th, parseRows parseOther ot, parseOps o with
+    | some r, some things, some others, some ops =>
+      match stackedChain path things others with
+      | some chain =>
+        if spec then
+          showRun ((Spec.plain ((stackedKeys chain (some r)).filterMap rowKeyOf')).openRun ops)
+        else showRun ((stackedOpen chain (some r) (stackedFuel chain (some r))).run ops)
+      | none => "bad-case"
+    | _, _, _, _ => "bad-case"
+  | _ => "bad-case"
+where
+  /-- the spec prints element values; nil and empty are the same element -/
+  rowKeyOf' (k : Bytes) : Option Bytes := some ((rowKeyOf k).getD [])
+
+structure Case where
+  desc : Desc
+  spec : Spec
+  ops : List Op
+
+def parseDescSpec (d : String) : Option (Desc × Spec) := do
+  let toks := d.splitOn ";"
+  let (desc, rest) ← parseDesc toks
+  if !rest.isEmpty then none
+  let spec := (tableSpec toks).getD desc.spec
+  pure (desc, spec)
+
+def parseCase (line : String) : Option Case :=
+  match splitSp line with
+  | [d, o] => do
+    let (desc, spec) ← parseDescSpec d
+    let ops ← parseOps o
+    pure { desc := desc, spec := spec, ops := ops }
+  | _ => none
+
+/-! exhaustive blocks -/
+
+def fnvOffset : UInt64 := 14695981039346656037
+def fnvPrime : UInt64 := 1099511628211
+
+def fnv (s : String) : UInt64 :=
+  s.toUTF8.foldl (fun h b => (h ^^^ b.toUInt64) * fnvPrime) fnvOffset
+
+def normNil (o : Obs) : Obs :=
+  match o with
+  | .value none => .value (some [])
+  | o => o
+
+structure Digest where
+  count : Nat := 0
+  raw : UInt64 := 0
+  norm : UInt64 := 0
+
+def Digest.add (dg : Digest) (obs : List Obs) : Digest :=
+  { count := dg.count + 1, raw := dg.raw + fnv (showRun obs), norm := dg.norm + fnv (showRun (obs.map normNil)) }
+
+/-- all scripts of length ≤ k over `alpha`, in the order: script, then its extensions -/
+partial def digest (runF : List Op → List Obs) (alpha : List Op) : Nat → List Op → Digest → Digest
+  | k, revPrefix, dg =>
+    let dg := dg.add (runF revPrefix.reverse)
+    if k = 0 then dg
+    else alpha.foldl (fun dg op => digest runF alpha (k - 1) (op :: revPrefix) dg) dg
+
+def showDigest (dg : Digest) : String := s!"{dg.count} {dg.raw} {dg.norm}"
+
+def blockStep (spec : Bool) (d k a : String) : String :=
+  match parseDescSpec d, k.toNat?, parseOps a with
+  | some (desc, sp), some k, some alpha =>
+    let c := desc.open
+    let runF : List Op → List Obs := if spec then sp.openRun else c.run
+    showDigest (digest runF alpha k [] {})
+  | _, _, _ => "bad-case"
+
+def stackedCase (line : String) : Option (List String × String) :=
+  match splitSp line with
+  | [d, o] => match d.splitOn ";" with
+    | "stacked" :: toks => some (toks, o)
+    | _ => none
+  | _ => none
+
+def step (line : String) : String :=
+  match splitSp line with
+  | ["X", d, k, a] => blockStep false d k a
+  | _ =>
+    match stackedCase line with
+    | some (toks, o) => stackedStep false toks o
+    | none =>
+    match parseCase line with
+    | some c => showRun (c.desc.open.run c.ops)
+    | none => "bad-case"
+
+def specStep (line : String) : String :=
+  match splitSp line with
+  | ["X", d, k, a] => blockStep true d k a
+  | _ =>
+    match stackedCase line with
+    | some (toks, o) => stackedStep true toks o
+    | none =>
+    match parseCase line with
+    | some c => showRun (c.spec.openRun c.ops)
+    | none => "bad-case"
 
 def run (spec : Bool) : IO Unit := forEachLine (if spec then specStep else step)
 
